@@ -21,7 +21,11 @@ namespace TAO_PEGTL_NAMESPACE::internal
          bool_and_size p = { false, in.size( 2 ) };
          if( p.size > 0 ) {
             if( in.peek_char() == '\r' ) {
-               in.bump_to_next_line( ( p.size = 1 + ( ( p.size > 1 ) && ( in.peek_char( 1 ) == '\n' ) ) ) );
+               p.size = 1 + ( ( p.size > 1 ) && ( in.peek_char( 1 ) == '\n' ) );
+               in.bump_to_next_line();  // Lines are counted by ch, the CR ...
+               if( p.size > 1 ) {
+                  in.bump_in_this_line();  // ... so that the LF already belongs to the new line, as for every other rule and for lazy inputs.
+               }
                p.data = true;
             }
          }
